@@ -44,6 +44,12 @@ def value_of(n, env):
         return ANY
     if n.get("k") == "var":
         return env.get(n.get("n"), ANY)
+    if n.get("k") == "call" and isinstance(env.get("__calls__"), dict):
+        nm = str(n.get("fn") or n.get("res") or "").split("::")[-1]
+        if nm in env["__calls__"]:
+            return env["__calls__"][nm]
+    if n.get("k") == "lit" and str(n.get("v")) in ("true", "false", "Bool(true)", "Bool(false)"):
+        return ("const", "true" if "true" in str(n.get("v")) else "false")
     if n.get("k") == "tuple":
         return T(*[value_of(x, env) for x in n.get("es", n.get("args", []))])
     if n.get("k") == "adt" and n.get("v") and not n.get("fields"):
@@ -74,7 +80,14 @@ def ev(n, env, eq, leaf=None):
                     out.add(None)
                     continue
                 if st.get("init") is not None:
-                    bind(st.get("pat"), value_of(st["init"], env), env)
+                    init = peel(st["init"])
+                    val = value_of(init, env)
+                    if val == ANY and isinstance(init, dict) and init.get("k") in ("match", "if", "logic", "un", "bin", "call") \
+                            and (st.get("pat") or {}).get("k") == "bind":
+                        r = ev(init, env, eq, leaf)
+                        if r == {True} or r == {False}:
+                            val = ("const", "true" if r == {True} else "false")
+                    bind(st.get("pat"), val, env)
                 continue
             if sk in ("if", "match", "return", "block"):
                 r = ev(st, env, eq, leaf)
@@ -96,6 +109,16 @@ def ev(n, env, eq, leaf=None):
     if k == "return":
         r = ev(n.get("e"), env, eq, leaf) if n.get("e") is not None else {UNIT}
         return {x if is_ret(x) else ("ret", x) for x in r}
+    if k == "var":
+        v = env.get(n.get("n"))
+        if isinstance(v, tuple) and len(v) == 2 and v[0] == "const" and v[1] in ("true", "false"):
+            return {v[1] == "true"}
+        return {leaf(n)} if leaf else {None}
+    if k == "call" and isinstance(env.get("__calls__"), dict):
+        nm = str(n.get("fn") or n.get("res") or "").split("::")[-1]
+        v = env["__calls__"].get(nm)
+        if isinstance(v, tuple) and len(v) == 2 and v[0] == "const" and v[1] in ("true", "false"):
+            return {v[1] == "true"}
     if k == "lit":
         v = str(n.get("v"))
         return {True} if "true" in v else {False} if "false" in v else {None}
